@@ -41,5 +41,19 @@ claim("C19", "other",
       ASSUME + " Does not decide descriptor/goroutine counts at run time, nor a peer that never reads (no write deadline).",
       "acquire/release pairing by path automaton over SSA CFG + who-may-write table", "DESIGN.md 4 C19")
 
+
+claim("C04", "other",
+      "Static rule set: exactly one call site in production packages can write to a client connection and it is the response writer of the connection loop; what it writes is on every path Message.RESPBytes() of a message with its error checked; in the serializer the payload of status/error/integer replies passes a proven CR/LF sanitiser (all return values free of both bytes); every serializer path emits a complete frame of its type into a fresh local buffer (emission grammar, array count = elements written). Together: no client-controlled byte and no handler result can add, split or truncate a frame — for all inputs and handler results of the five declared types.",
+      ASSUME + " A handler returning a message of an undeclared type or an array with a nil element is outside what is decided (the latter panics into C07's barrier).",
+      "who-may-write table + value provenance on SSA + sanitiser recognition + emission-grammar path enumeration", "DESIGN.md 4 C04")
+claim("C08", "other",
+      "Static gate rules: in the dispatcher every path to the looked-up executor crosses IsAuthrized()==true on the same connection or key == the registered name of the executor that calls Auth (path automaton with branch-edge events), the executor table is read nowhere else and handler methods are called only behind it; the authorisation flag is written only by the constructor (false) and SetAuthrized, called only with the initial !requirepass state before the loop or with true after Authenticate(conn) returned ok && err==nil on the same connection; presented credentials are stored before Authenticate; password presence does not depend on content; every path of the password authenticator to true crosses absence or exact equality with the configured field; Start registers an authenticator for the configured password before listening; executors do not write variables captured across connections. A complete structural argument for 'no executor before exact AUTH' under the stated assumptions.",
+      ASSUME + " String == is exact; requirepass changed at run time without Restart, timing channels and application-supplied handlers are not decided.",
+      "typestate/gate path automaton with branch-edge events on SSA + who-may-call/who-may-write tables + backward slices", "DESIGN.md 4 C08")
+claim("C09", "other",
+      "Static rule set: the generated tls.Config demands RequireAndVerifyClientCert against a fresh pool holding only the configured CA (TLS>=1.2, no verification override) and TLS sockets are used only through tls.Server; the request loop is entered on a TLS connection only after Handshake()==nil, ConnectionState taken after it and Authenticate ok && err==nil (automaton with phi-edge pruning); the common name compared is that of PeerCertificates[0]; accept loops do no handshake/read work, end only on Accept's error, hand over or close every socket, and close only their own listener; failing paths close the socket. Decides the gate and containment structurally for the whole enumerated configuration x credential x fault space.",
+      ASSUME + " crypto/tls does chain and expiry validation; an application-supplied tls.Config replaces the generated one.",
+      "constant/config-literal evaluation + path automaton with phi-edge pruning + value provenance on SSA", "DESIGN.md 4 C09")
+
 for _k in list(CLAIMS):
     NA.pop(_k, None)
